@@ -57,10 +57,16 @@ func errClass(err error) string {
 
 // checkDumpParse parses the rendering of d (with text around it) and compares.
 func checkDumpParse(d *gen.Dump, before, after string, key string) *h.Viol {
+	return checkDumpParseOpts(d, before, after, key, plainOpts(), "")
+}
+
+// checkDumpParseOpts: the same under other options (tag names them in the fingerprint):
+// what the parser reads from the text does not depend on the stages that run after it.
+func checkDumpParseOpts(d *gen.Dump, before, after string, key string, opts *Opts, tag string) *h.Viol {
 	body := d.Bytes()
 	in := append(append([]byte(before), body...), after...)
-	res := scanOnce(bytes.NewReader(in), plainOpts())
-	disc := ""
+	res := scanOnce(bytes.NewReader(in), opts)
+	disc := tag
 	if d.F.Indent != "" {
 		disc += ":indented"
 	}
@@ -82,7 +88,7 @@ func checkDumpParse(d *gen.Dump, before, after string, key string) *h.Viol {
 	// the same dump through a reader that reports EOF together with its only Read,
 	// and through one that delivers it in two pieces: the snapshot must be the same
 	for di, sr := range []*scriptReader{{data: in, eofWithData: true}, {data: in, chunks: []int{len(in) / 2}}} {
-		alt := scanOnce(sr, plainOpts())
+		alt := scanOnce(sr, opts)
 		if alt.panicked != "" {
 			return mk("panic", "ScanSnapshot panicked: "+firstLine(alt.panicked))
 		}
@@ -177,7 +183,7 @@ func TestVerifC01(t *testing.T) {
 	r := h.Start("C01")
 	defer r.Finish(func(s string) { t.Error(s) })
 	env := genEnv()
-	r.Set("rule", "choice vectors of the traceback-printer model: (a) all vectors with <= bound deviations from the plainest dump over format, goroutine count, id, every state string of the installed runtimes, tails, minutes, lock, stack shapes (1..150 frames, both elision markers, unavailable), creator forms, 40 symbol shapes, 14 file shapes, all argument trees <=4 nodes/depth<=3 + specials, leaf value rotations, surrounding text; (b) full product of the format dimensions x 3 contents; (c) full symbol x file product at stack and creator position; (d) a function line / argument list / file line of 16383..200000 bytes in the second of three goroutines, LF and CRLF. non-trivial = at least one deviation from the default dump; distinct = choice vector")
+	r.Set("rule", "choice vectors of the traceback-printer model: (a) all vectors with <= bound deviations from the plainest dump over format, goroutine count, id, every state string of the installed runtimes, tails, minutes, lock, stack shapes (1..150 frames, both elision markers, unavailable), creator forms, 40 symbol shapes, 14 file shapes, all argument trees <=4 nodes/depth<=3 + specials, leaf value rotations, surrounding text; (b) full product of the format dimensions x 3 contents, each parsed with no option and with every later stage on (naming, path guessing, source analysis); (c) full symbol x file product at stack and creator position; (d) a function line / argument list / file line of 16383..200000 bytes in the second of three goroutines, LF and CRLF. non-trivial = at least one deviation from the default dump; distinct = choice vector")
 	r.Set("assumptions", []string{"the printer model (verifx/gen/dump.go) is faithful to runtime/traceback.go of the installed toolchains (state strings are read from their sources at check time)", "ground truth comparison covers ID, First, State, Sleep, Locked, per frame Func.{Complete,ImportPath,Name}, RemoteSrcPath, Line, SrcName, argument trees incl. IsPtr as a function of the value, creator, Stack.Elided"})
 	r.Set("states_in_alphabet", len(env.States))
 	bound := r.Pick(2, 3)
@@ -228,7 +234,14 @@ func TestVerifC01(t *testing.T) {
 			if !r.Mine(key) {
 				return
 			}
-			v := r.Check(func() *h.Viol { return checkDumpParse(d, "panic: x\n\n", "", key) })
+			v := r.Check(func() *h.Viol {
+				if v := checkDumpParse(d, "panic: x\n\n", "", key); v != nil {
+					return v
+				}
+				// the same dump with every later stage on, as the command runs it (argument
+				// naming, path guessing against the local Go root, source analysis)
+				return checkDumpParseOpts(d, "panic: x\n\n", "", key, DefaultOpts(), ":all-stages-on")
+			})
 			out := "ok"
 			if v != nil {
 				out = v.Fingerprint
